@@ -5,5 +5,9 @@ MCPropArgs == [tf : {"t1", "t2"}, steps : {"s1", "s2"}, kw : {"none", "1", "2"}]
 MCStabOpts == {"1", "2"}
 MCPropArgsSmall == [tf : {"t1", "t2"}, steps : {"s1"}, kw : {"none", "1", "2"}]
 NoHistView == <<sc, pc, gen, last>>
+\* exhaustive verification runs use several workers: TLC's parallel breadth-first search does not reach a
+\* state first through its SHORTEST history, so with a history-length constraint the history length must be
+\* part of the state identity (otherwise which successors are cut off depends on the schedule)
+DepthView == <<NoHistView, Len(hist)>>
 EmitState == (Len(hist) <= MaxLen) => PrintT(ToJson(hist))
 =============================================================================
